@@ -555,3 +555,896 @@ Proof.
   - lia.
   - intros x H1 H2. apply Hfin; [exact H1|]. intro E. subst x. apply H2. apply In_lay_bn.
 Qed.
+
+(* ------------------------------------------------------------------ what every public operation establishes *)
+(* res = the model's (new state, output); h' evs' nx' = the heap, ghost events and ghost counter returned by the source *)
+Definition tie_post (h : heap) (evs : list hev) (L : lay) (this : hptr) (res : state * out)
+                    (h' : heap) (evs' : list hev) (nx' : Z) (ids' : list (nat * N)) (L' : lay) : Prop :=
+  exists new,
+    evs' = evs ++ new /\ nx' = Z.of_N (s_next (fst res)) /\ rep h' this ids' L' (fst res) /\
+    erase_all ids' new = o_evs (snd res) /\ Forall (resolved ids') new /\ (In HWarn new <-> o_warn (snd res) = true) /\
+    (forall b, (b < length h)%nat -> ~ In b (lay_blocks L) -> hblock h' b = hblock h b) /\ (length h <= length h')%nat.
+
+Lemma fuel_ok_5 fuel st : fuel_ok fuel st -> (5 < fuel)%nat. Proof. intros [H _]. exact H. Qed.
+Lemma no_warn_iff : In HWarn [] <-> false = true.
+Proof. split; [intros [] | discriminate]. Qed.
+
+(* ------------------------------------------------------------------ alloc *)
+Theorem src_cache_alloc_spec : forall fuel h evs this ids L st n,
+  rep h this ids L st -> fuel_ok fuel st ->
+  exists h' evs' nx' ids' L' id,
+    o_ret (snd (C18_Model.alloc st n)) = Some id /\
+    src_cache_alloc fuel h evs (Z.of_N (s_next st)) this (Z.of_N n) = FOk (Z.of_N id, h', evs', nx') /\
+    (ids' = ids \/ ids' = (length h, s_next st) :: ids) /\
+    tie_post h evs L this (C18_Model.alloc st n) h' evs' nx' ids' L'.
+Proof.
+  intros fuel h evs this ids L st n Hrep Hfuel. pose proof (fuel_ok_5 _ _ Hfuel) as H5. pose proof Hrep as Hrep0. rep_inv Hrep.
+  subst this. set (bt := l_bt L) in *. set (bn := l_bn L) in *.
+  assert (Hsz : forall i, (i < 5)%nat ->
+            nth_error (hblock h bn) (3 * i) = Some (VInt (Z.of_N (n_size (nth i (s_cache st) dnode))))).
+  { intros i Hi. destruct (Hnodes i Hi) as [pf [pu [A _]]]. exact A. }
+  unfold src_cache_alloc, C18_Model.alloc. rewrite t_isCached. cbv beta iota. rewrite b2z_z2b.
+  destruct (is_cached n) eqn:Hcach.
+  - (* a cached size *)
+    cbv zeta. pose proof (t_getNode h bt bn _ _ _ (s_cache st) Hbt Hlen Hc Hsz fuel evs (Z.of_N (s_next st)) n H5) as HgN.
+    set (i := index_for (s_cache st) n) in *.
+    assert (Hi : (i < 5)%nat) by (unfold i; rewrite <- Hc; apply index_for_bound; lia).
+    unfold src_cache_hasFreeBlocksOfSize. rewrite HgN. cbv beta iota.
+    destruct (Hnodes i Hi) as [pf [pu [_ [Hpf [Hpu [Hcf Hcu]]]]]].
+    rewrite (t_node_padd1 h bn Hlen i Hi). cbv beta iota. rewrite (t_load_ptr _ _ _ _ Hpf). cbv beta iota. cbn [finish]. cbv beta iota.
+    destruct (n_free (nth i (s_cache st) dnode)) as [|b frl] eqn:Hfree.
+    + (* no free block: a new one *)
+      apply chain_nil_inv in Hcf. destruct Hcf as [-> Hfri]. change (z2b (hp_ne HNull HNull)) with false. cbv beta iota.
+      rewrite HgN. cbv beta iota.
+      destruct (t_allocNew fuel h evs (HPtr bt 0) ids L st i Hrep0 Hi) as [h' [q [Hrun [Hblk [Hrep' [Hlen' Hfrm]]]]]].
+      fold bn in Hrun. rewrite Hrun. cbv beta iota. rewrite (t_blk_padd1 _ _ _ _ Hblk). cbv beta iota.
+      rewrite (t_blk_mem _ _ _ _ Hblk). cbv beta iota. cbn [finish b_mem]. unfold create_block. cbv beta iota. cbn [fst snd mk_out o_ret].
+      eexists h', _, _, ((length h, s_next st) :: ids), _, (s_next st + 1)%N.
+      split; [reflexivity|]. split; [reflexivity|]. split; [right; reflexivity|].
+      eexists. split; [reflexivity|]. cbn [fst snd s_next o_evs o_warn mk_out]. split; [lia|]. split; [|split; [|split; [|split; [|split]]]].
+      * rewrite Hfree in Hrep'. eapply rep_next; [| | | exact Hrep']; reflexivity.
+      * unfold erase_all. cbn [flat_map erase app]. replace (Z.of_N (s_next st) + 1) with (Z.of_N (s_next st + 1)) by lia.
+        rewrite !N2Z.id. reflexivity.
+      * constructor; [exact I|]. constructor; [exact I | constructor].
+      * split; [|discriminate]. intros [E|[E|[]]]; discriminate E.
+      * exact Hfrm.
+      * lia.
+    + (* a free block is reused *)
+      apply chain_cons_inv in Hcf. destruct Hcf as [hb0 [tl0 [nxt0 [_ [-> _]]]]]. change (z2b (hp_ne (HPtr hb0 0) HNull)) with true.
+      cbv beta iota. rewrite HgN. cbv beta iota.
+      destruct (t_reserve fuel h evs (Z.of_N (s_next st)) (HPtr bt 0) ids L st i b frl Hrep0 Hi Hfree)
+        as [h' [hb [tl [q [Hfi [Hrun [Hblk [Hrep' [Hlen' Hfrm]]]]]]]]].
+      fold bn in Hrun. rewrite Hrun. cbv beta iota. rewrite (t_blk_padd1 _ _ _ _ Hblk). cbv beta iota.
+      rewrite (t_blk_mem _ _ _ _ Hblk). cbv beta iota. cbn [finish fst snd mk_out o_ret].
+      eexists h', _, _, ids, _, (b_mem b). split; [reflexivity|]. split; [reflexivity|]. split; [left; reflexivity|].
+      exists []. split; [rewrite app_nil_r; reflexivity|]. cbn [fst snd s_next o_evs o_warn mk_out with_cache].
+      split; [reflexivity|]. split; [exact Hrep'|]. split; [reflexivity|]. split; [constructor|]. split; [exact no_warn_iff|].
+      split; [intros x _ Hx; apply Hfrm; exact Hx | lia].
+  - (* above the bound: a non-cached block *)
+    rewrite (t_this_padd2 _ _ _ _ _ _ Hbt). cbv beta iota. rewrite (t_this_non _ _ _ _ _ _ Hbt). cbv beta iota.
+    rewrite t_create. cbv beta iota. set (nx := s_next st). set (b := {| b_hdr := nx; b_mem := (nx + 1)%N |}).
+    set (h1 := h ++ [[VPtr pn; VInt (Z.of_N nx + 1)]]).
+    assert (Hlay : forall x, In x (lay_blocks L) -> (x < length h)%nat) by (apply Forall_forall; exact Hbd).
+    assert (Hbtl : (bt < length h)%nat) by (apply Hlay; apply In_lay_bt).
+    assert (Hold : forall x, (x < length h)%nat -> hblock h1 x = hblock h x) by (intros x Hx; apply t_hblock_old; exact Hx).
+    assert (Hb1 : hblock h1 (length h) = blk_cells b pn).
+    { unfold h1. rewrite t_hblock_new. unfold blk_cells, b. cbn [b_mem]. rewrite N2Z.inj_add. reflexivity. }
+    assert (L1 : length h1 = S (length h)) by (unfold h1; rewrite app_length; cbn; lia).
+    assert (Hbt1 : hblock h1 bt = cache_cells (l_al L) bn pn (s_warned st)) by (rewrite Hold by exact Hbtl; exact Hbt).
+    destruct (t_this_set_non h1 bt bn (l_al L) pn (s_warned st) Hbt1 ltac:(lia) (HPtr (length h) 0)) as [h2 [S2 [L2 [F2 B2]]]].
+    assert (Hb2 : hblock h2 (length h) = blk_cells b pn) by (rewrite F2 by lia; exact Hb1).
+    rewrite (t_this_padd2 _ _ _ _ _ _ Hbt1). cbv beta iota. rewrite S2. cbv beta iota.
+    rewrite (t_this_padd2 _ _ _ _ _ _ B2). cbv beta iota. rewrite (t_this_non _ _ _ _ _ _ B2). cbv beta iota.
+    rewrite (t_blk_padd1 _ _ _ _ Hb2). cbv beta iota. rewrite (t_blk_mem _ _ _ _ Hb2). cbv beta iota. cbn [finish b_mem].
+    unfold create_block. cbv beta iota. cbn [fst snd mk_out o_ret]. fold nx.
+    eexists h2, _, _, ((length h, nx) :: ids), (lay_set_non L (length h :: l_non L)), (nx + 1)%N.
+    split; [reflexivity|]. split; [reflexivity|]. split; [right; reflexivity|].
+    eexists. split; [reflexivity|]. cbn [fst snd s_next o_evs o_warn mk_out]. split; [lia|]. split; [|split; [|split; [|split; [|split]]]].
+    + apply (rep_set_non h h2 (HPtr bt 0) ids ((length h, nx) :: ids) L st (length h :: l_non L) (b :: s_non st) (s_warned st) Hrep0).
+      * lia.
+      * intros x Hx Hxb _. rewrite F2 by exact Hxb. apply Hold. apply Hlay. exact Hx.
+      * intros x Hx. apply lookup_cons_other. apply Hlay in Hx. lia.
+      * exists (HPtr (length h) 0). split; [exact B2|]. cbn [chain]. split; [reflexivity|]. split; [apply lookup_cons_same|].
+        exists pn. split; [exact Hb2|]. apply chain_frame with (h := h) (ids := ids); [| | exact Hnon].
+        -- intros x Hx. pose proof (lay_cnt_slots L x 0 0 Hnd) as Q. fold bt in Q. rewrite F2 by cnt_solve.
+           apply Hold. apply Hlay. apply In_lay_non. exact Hx.
+        -- intros x Hx. apply lookup_cons_other. apply In_lay_non in Hx. apply Hlay in Hx. lia.
+      * apply NoDup_cnt. intro x. pose proof (cnt_lay_set_non x L (length h :: l_non L)) as Q.
+        pose proof Hnd as Hnd2. apply NoDup_cnt with (x := x) in Hnd2. rewrite cnt_cons in Q.
+        destruct (Nat.eq_dec (length h) x) as [E|E].
+        -- assert (Hz : cnt x (lay_blocks L) = 0%nat) by (apply notIn_cnt; intro Hin; apply Hlay in Hin; lia).
+           rewrite (eq_one _ _ E) in Q. lia.
+        -- rewrite (one_other _ _ E) in Q. lia.
+      * apply Forall_forall. intros x Hx. rewrite L2, L1. destruct Hx as [<-|Hx]; [lia|]. apply In_lay_non in Hx. apply Hlay in Hx. lia.
+    + unfold erase_all. cbn [flat_map erase app]. replace (Z.of_N nx + 1) with (Z.of_N (nx + 1)) by lia. rewrite !N2Z.id. reflexivity.
+    + constructor; [exact I|]. constructor; [exact I | constructor].
+    + split; [|discriminate]. intros [E|[E|[]]]; discriminate E.
+    + intros x H1 H2. rewrite F2 by (intro E; subst x; apply H2; apply In_lay_bt). apply Hold. exact H1.
+    + lia.
+Qed.
+
+(* ------------------------------------------------------------------ printDeallocatingUnknownMemory vs unknown_release *)
+Lemma t_printUnknown fuel h evs nx this ids L st m :
+  rep h this ids L st ->
+  exists h', src_cache_printDeallocatingUnknownMemory fuel h evs nx this m =
+             FOk (tt, h', evs ++ (if s_warned st then [] else [HWarn]), nx) /\
+    rep h' this ids L (fst (unknown_release st)) /\ length h' = length h /\
+    (forall x, ~ In x (lay_blocks L) -> hblock h' x = hblock h x).
+Proof.
+  intros Hrep. pose proof Hrep as Hrep0. rep_inv Hrep. subst this. unfold src_cache_printDeallocatingUnknownMemory, unknown_release.
+  cbn [fst]. rewrite (t_this_padd3 _ _ _ _ _ _ Hbt). cbv beta iota. rewrite (t_this_warned _ _ _ _ _ _ Hbt). cbv beta iota.
+  unfold c_lnot. rewrite !b2z_z2b. destruct (s_warned st) eqn:Hw; cbn [negb]; cbv beta iota.
+  - exists h. split; [rewrite app_nil_r; reflexivity|]. split; [|split; [reflexivity | intros; reflexivity]].
+    apply (rep_next h (HPtr (l_bt L) 0) ids L st); [reflexivity | reflexivity | cbn [s_warned]; symmetry; exact Hw | exact Hrep0].
+  - assert (Hlay : forall x, In x (lay_blocks L) -> (x < length h)%nat) by (apply Forall_forall; exact Hbd).
+    destruct (t_this_set_warned h (l_bt L) (l_bn L) (l_al L) pn false Hbt (Hlay _ (In_lay_bt L))) as [h1 [S1 [L1 [F1 B1]]]].
+    rewrite S1. cbv beta iota zeta.
+    exists h1. split; [reflexivity|]. split; [|split; [exact L1|]].
+    + pose proof (rep_set_non h h1 (HPtr (l_bt L) 0) ids ids L st (l_non L) (s_non st) true Hrep0 ltac:(lia)) as R.
+      destruct L as [bt bn fr us non al]. apply R; cbn [l_bt l_bn l_fr l_us l_non l_al lay_set_non] in *.
+      * intros x _ Hx _. apply F1. exact Hx.
+      * intros; reflexivity.
+      * exists pn. split; [exact B1|]. apply chain_frame with (h := h) (ids := ids); [| intros; reflexivity | exact Hnon].
+        intros x Hx. apply F1. pose proof (lay_cnt_slots _ x 0 0 Hnd) as Q. cbn [l_bt l_bn l_fr l_us l_non] in Q. cnt_solve.
+      * exact Hnd.
+      * apply Forall_forall. intros x Hx. rewrite L1. apply Hlay. apply (In_lay_non {| l_bt := bt; l_bn := bn; l_fr := fr; l_us := us; l_non := non; l_al := al |}). exact Hx.
+    + intros x Hx. apply F1. intro E. subst x. apply Hx. apply In_lay_bt.
+Qed.
+
+(* ------------------------------------------------------------------ releaseCachedBlockFrom: the loop vs unlink_next *)
+(* local invariant: block bp holds `cur` whose next_ is p0, from p0 the heap holds `rest`; node i's freeMemoryHead_ is pf *)
+Lemma t_relC_loop fuel0 this ids p bn i : forall rest fuel h evs nx cur bp p0 bs pf,
+  hblock h bp = blk_cells cur p0 -> lookup bp ids = Some (b_hdr cur) -> chain h ids p0 bs rest ->
+  NoDup (bp :: bs) -> ~ In bn (bp :: bs) -> Forall (fun b => (b < length h)%nat) (bp :: bs) -> (bn < length h)%nat ->
+  length (hblock h bn) = 15%nat -> (i < 5)%nat -> nth_error (hblock h bn) (3 * i + 1) = Some (VPtr pf) ->
+  (S (length rest) < fuel)%nat ->
+  match unlink_next cur rest p with
+  | None => src_cache_releaseCachedBlockFrom_loop1 fuel0 fuel this (addr_of p) (HPtr bn (Z.of_nat (3 * i))) h evs nx (HPtr bp 0) =
+            Go (h, evs, nx, HNull)
+  | Some (b, l') => exists h' hx bs' l'',
+      l' = cur :: l'' /\
+      src_cache_releaseCachedBlockFrom_loop1 fuel0 fuel this (addr_of p) (HPtr bn (Z.of_nat (3 * i))) h evs nx (HPtr bp 0) =
+      Done (tt, h', evs, nx) /\
+      chain h' ids (HPtr bp 0) (bp :: bs') (cur :: l'') /\
+      (forall x, cnt x bs = (one hx x + cnt x bs')%nat) /\
+      hblock h' hx = blk_cells b pf /\ lookup hx ids = Some (b_hdr b) /\
+      length h' = length h /\ length (hblock h' bn) = 15%nat /\
+      nth_error (hblock h' bn) (3 * i + 1) = Some (VPtr (HPtr hx 0)) /\
+      (forall k, k <> (3 * i + 1)%nat -> nth_error (hblock h' bn) k = nth_error (hblock h bn) k) /\
+      (forall x, x <> bn -> ~ In x (bp :: bs) -> hblock h' x = hblock h x)
+  end.
+Proof.
+  induction rest as [|nb rest IH]; intros fuel h evs nx cur bp p0 bs pf Hbp Hlk Hc Hnd Hbn Hlt Hbnl Hlen Hi Hpf Hf.
+  - apply chain_nil_inv in Hc. destruct Hc as [-> ->]. destruct fuel as [|[|fuel]]; [cbn in Hf; lia | cbn in Hf; lia|].
+    cbn [unlink_next src_cache_releaseCachedBlockFrom_loop1]. rewrite t_z2b_ptr. cbv beta iota.
+    rewrite (t_blk_next _ _ _ _ Hbp). cbv beta iota. rewrite t_z2b_null. cbv beta iota zeta. reflexivity.
+  - apply chain_cons_inv in Hc. destruct Hc as [hn [bs2 [nxt2 [-> [-> [Hlkn [Hbnb Hc]]]]]]].
+    destruct fuel as [|fuel]; [cbn in Hf; lia|]. cbn [length] in Hf.
+    inversion Hnd as [|? ? Hn1 Hnd1]; subst. inversion Hnd1 as [|? ? Hn2 Hnd2]; subst.
+    inversion Hlt as [|? ? Hl1 Hlt1]; subst. inversion Hlt1 as [|? ? Hl2 Hlt2]; subst.
+    assert (Hbpn : bp <> bn) by (intro E; apply Hbn; left; exact E).
+    assert (Hhnn : hn <> bn) by (intro E; apply Hbn; right; left; exact E).
+    assert (Hbphn : bp <> hn) by (intro E; apply Hn1; left; symmetry; exact E).
+    cbn [unlink_next src_cache_releaseCachedBlockFrom_loop1]. rewrite t_z2b_ptr. cbv beta iota.
+    rewrite (t_blk_next _ _ _ _ Hbp). cbv beta iota. rewrite t_z2b_ptr. cbv beta iota.
+    rewrite (t_blk_padd1 _ _ _ _ Hbnb). cbv beta iota. rewrite (t_blk_mem _ _ _ _ Hbnb). cbv beta iota. rewrite t_mem_eq.
+    destruct (mem_is nb p).
+    + cbv beta iota zeta. rewrite (t_blk_next _ _ _ _ Hbnb). cbv beta iota.
+      destruct (t_blk_set_next h bp cur (HPtr hn 0) Hbp nxt2 Hl1) as [h1 [S1 [L1 [F1 B1]]]]. rewrite S1. cbv beta iota.
+      assert (N1 : length (hblock h1 bn) = 15%nat) by (rewrite F1 by (intro E; apply Hbpn; symmetry; exact E); exact Hlen).
+      rewrite (t_node_padd1 h1 bn N1 i Hi). cbv beta iota.
+      rewrite (t_load_ptr h1 bn (3 * i + 1) pf) by (rewrite F1 by (intro E; apply Hbpn; symmetry; exact E); exact Hpf). cbv beta iota.
+      assert (Hb1 : hblock h1 hn = blk_cells nb nxt2) by (rewrite F1 by (intro E; apply Hbphn; symmetry; exact E); exact Hbnb).
+      destruct (t_blk_set_next h1 hn nb nxt2 Hb1 pf ltac:(lia)) as [h2 [S2 [L2 [F2 B2]]]].
+      unfold src_cache_addToSimpleStringMemoryBlockList. rewrite S2. cbv beta iota. cbn [finish]. cbv beta iota.
+      assert (N2 : length (hblock h2 bn) = 15%nat) by (rewrite F2 by (intro E; apply Hhnn; symmetry; exact E); exact N1).
+      rewrite (t_node_padd1 h2 bn N2 i Hi). cbv beta iota.
+      destruct (t_node_store h2 bn (3 * i + 1) (VPtr (HPtr hn 0)) N2 ltac:(lia) ltac:(lia)) as [h3 [S3 [L3 [F3 [N3 [C3 O3]]]]]].
+      rewrite S3. cbv beta iota.
+      exists h3, hn, bs2, rest. split; [reflexivity|]. split; [reflexivity|]. split; [|split; [|split; [|split; [|split; [|split; [|split; [|split]]]]]]].
+      * cbn [chain]. split; [reflexivity|]. split; [exact Hlk|]. exists nxt2. split.
+        -- rewrite F3 by exact Hbpn. rewrite F2 by exact Hbphn. exact B1.
+        -- apply chain_frame with (h := h) (ids := ids); [| intros; reflexivity | exact Hc].
+           intros x Hx. assert (x <> bn) by (intro E; subst x; apply Hbn; right; right; exact Hx).
+           assert (x <> hn) by (intro E; subst x; exact (Hn2 Hx)).
+           assert (x <> bp) by (intro E; subst x; apply Hn1; right; exact Hx).
+           rewrite F3, F2, F1 by assumption. reflexivity.
+      * intro x. rewrite cnt_cons. reflexivity.
+      * rewrite F3 by exact Hhnn. exact B2.
+      * exact Hlkn.
+      * lia.
+      * exact N3.
+      * exact C3.
+      * intros k Hk. rewrite O3 by exact Hk. rewrite F2 by (intro E; apply Hhnn; symmetry; exact E).
+        rewrite F1 by (intro E; apply Hbpn; symmetry; exact E). reflexivity.
+      * intros x H1 H2. assert (x <> hn) by (intro E; subst x; apply H2; right; left; reflexivity).
+        assert (x <> bp) by (intro E; subst x; apply H2; left; reflexivity). rewrite F3, F2, F1 by assumption. reflexivity.
+    + cbv beta iota zeta.
+      assert (Hbn' : ~ In bn (hn :: bs2)) by (intro Hin; apply Hbn; right; exact Hin).
+      pose proof (IH fuel h evs nx nb hn nxt2 bs2 pf Hbnb Hlkn Hc Hnd1 Hbn' Hlt1 Hbnl Hlen Hi Hpf ltac:(lia)) as R.
+      destruct (unlink_next nb rest p) as [[b l']|].
+      * destruct R as [h' [hx [bs' [l'' [-> [Hrun [Hch [Hcnt [Hbx [Hlx [Hlen' [N' [C' [O' F']]]]]]]]]]]]]].
+        exists h', hx, (hn :: bs'), (nb :: l''). split; [reflexivity|]. split; [exact Hrun|].
+        split; [|split; [|split; [|split; [|split; [|split; [|split; [|split]]]]]]]; try assumption.
+        -- cbn [chain]. split; [reflexivity|]. split; [exact Hlk|]. exists (HPtr hn 0). split; [|exact Hch].
+           rewrite F' by assumption. exact Hbp.
+        -- intro x. rewrite !cnt_cons. rewrite Hcnt. lia.
+        -- intros x H1 H2. apply F'; [exact H1|]. intro Hin. apply H2. right. exact Hin.
+      * exact R.
+Qed.
+
+(* ------------------------------------------------------------------ releaseCachedBlockFrom vs unlink on the used list of node i *)
+Lemma t_releaseCached fuel h evs nx this ids L st i p :
+  rep h this ids L st -> (i < 5)%nat -> (length (n_used (nth i (s_cache st) dnode)) < fuel)%nat ->
+  match unlink (n_used (nth i (s_cache st) dnode)) p with
+  | Some (b, used') => exists h' L',
+      src_cache_releaseCachedBlockFrom fuel h evs nx this (addr_of p) (HPtr (l_bn L) (Z.of_nat (3 * i))) = FOk (tt, h', evs, nx) /\
+      rep h' this ids L' (with_cache st (set_nth i {| n_size := n_size (nth i (s_cache st) dnode);
+                                                       n_free := b :: n_free (nth i (s_cache st) dnode); n_used := used' |}
+                                                 (s_cache st))) /\
+      length h' = length h /\ (forall x, ~ In x (lay_blocks L) -> hblock h' x = hblock h x)
+  | None => exists h',
+      src_cache_releaseCachedBlockFrom fuel h evs nx this (addr_of p) (HPtr (l_bn L) (Z.of_nat (3 * i))) =
+      FOk (tt, h', evs ++ (if s_warned st then [] else [HWarn]), nx) /\
+      rep h' this ids L (fst (unknown_release st)) /\ length h' = length h /\
+      (forall x, ~ In x (lay_blocks L) -> hblock h' x = hblock h x)
+  end.
+Proof.
+  intros Hrep Hi Hf. pose proof Hrep as Hrep0. rep_inv Hrep. set (bn := l_bn L) in *.
+  destruct (Hnodes i Hi) as [pf [pu [Hs [Hpf [Hpu [Hcf Hcu]]]]]].
+  assert (Hlay : forall x, In x (lay_blocks L) -> (x < length h)%nat) by (apply Forall_forall; exact Hbd).
+  assert (Hbnl : (bn < length h)%nat) by (apply Hlay; apply In_lay_bn).
+  unfold src_cache_releaseCachedBlockFrom. rewrite (t_node_padd2 h bn Hlen i Hi). cbv beta iota.
+  rewrite (t_load_ptr _ _ _ _ Hpu). cbv beta iota.
+  destruct (n_used (nth i (s_cache st) dnode)) as [|hd r] eqn:Hused.
+  - apply chain_nil_inv in Hcu. destruct Hcu as [-> Hui]. rewrite t_z2b_null. cbv beta iota. change (z2b 0) with false. cbv beta iota zeta.
+    destruct fuel as [|fuel]; [cbn in Hf; lia|]. cbn [src_cache_releaseCachedBlockFrom_loop1]. rewrite t_z2b_null. cbv beta iota.
+    destruct (t_printUnknown (S fuel) h evs nx this ids L st (addr_of p) Hrep0) as [h' [Hrun [Hrep' [Hlen' Hfrm]]]].
+    rewrite Hrun. cbv beta iota. cbn [unlink]. exists h'. split; [reflexivity|]. split; [exact Hrep'|]. split; [exact Hlen' | exact Hfrm].
+  - apply chain_cons_inv in Hcu. destruct Hcu as [hb [bs [nxt [Hui [-> [Hlk [Hb Hct]]]]]]].
+    assert (Hhbin : In hb (nth i (l_us L) [])) by (rewrite Hui; left; reflexivity).
+    assert (Hhbl : (hb < length h)%nat) by (apply Hlay; apply (In_lay_us L i); exact Hhbin).
+    assert (Hhbn : hb <> bn) by (pose proof (lay_cnt_slots L hb i i Hnd) as Q; fold bn in Q; cnt_solve).
+    assert (Hndu : NoDup (hb :: bs)).
+    { rewrite <- Hui. apply NoDup_cnt. intro x. apply NoDup_cnt with (x := x) in Hnd. rewrite cnt_lay in Hnd.
+      pose proof (cnt_nth_le x (l_us L) i). lia. }
+    assert (Hbnu : ~ In bn (hb :: bs)).
+    { rewrite <- Hui. pose proof (lay_cnt_slots L bn i i Hnd) as Q. fold bn in Q. cnt_solve. }
+    assert (Hltu : Forall (fun b => (b < length h)%nat) (hb :: bs)).
+    { rewrite <- Hui. apply Forall_forall. intros x Hx. apply Hlay. apply (In_lay_us L i). exact Hx. }
+    rewrite t_z2b_ptr. cbv beta iota. rewrite (t_blk_padd1 _ _ _ _ Hb). cbv beta iota. rewrite (t_blk_mem _ _ _ _ Hb). cbv beta iota.
+    rewrite t_mem_eq. cbn [unlink]. destruct (mem_is hd p).
+    + (* the head *)
+      cbv beta iota zeta. rewrite (t_blk_next _ _ _ _ Hb). cbv beta iota.
+      destruct (t_node_store h bn (3 * i + 2) (VPtr nxt) Hlen ltac:(lia) Hbnl) as [h1 [S1 [L1 [F1 [N1 [C1 O1]]]]]].
+      rewrite S1. cbv beta iota. rewrite (t_node_padd1 h1 bn N1 i Hi). cbv beta iota.
+      rewrite (t_load_ptr h1 bn (3 * i + 1) pf) by (rewrite O1 by lia; exact Hpf). cbv beta iota.
+      assert (Hb1 : hblock h1 hb = blk_cells hd nxt) by (rewrite F1 by exact Hhbn; exact Hb).
+      destruct (t_blk_set_next h1 hb hd nxt Hb1 pf ltac:(lia)) as [h2 [S2 [L2 [F2 B2]]]].
+      unfold src_cache_addToSimpleStringMemoryBlockList. rewrite S2. cbv beta iota. cbn [finish]. cbv beta iota.
+      assert (Hbn21 : hblock h2 bn = hblock h1 bn) by (apply F2; intro E; apply Hhbn; symmetry; exact E).
+      assert (N2 : length (hblock h2 bn) = 15%nat) by (rewrite Hbn21; exact N1).
+      rewrite (t_node_padd1 h2 bn N2 i Hi). cbv beta iota.
+      destruct (t_node_store h2 bn (3 * i + 1) (VPtr (HPtr hb 0)) N2 ltac:(lia) ltac:(lia)) as [h3 [S3 [L3 [F3 [N3 [C3 O3]]]]]].
+      rewrite S3. cbv beta iota.
+      exists h3, (lay_set_node L i (hb :: nth i (l_fr L) []) bs). split; [reflexivity|]. split; [|split; [lia|]].
+      * apply (rep_set_node h h3 this ids ids L st i) with (1 := Hrep0); try assumption.
+        -- lia.
+        -- intros x Hx Hxn Hxf Hxu. rewrite F3 by exact Hxn. rewrite F2 by (intro E; subst x; exact (Hxu Hhbin)). apply F1. exact Hxn.
+        -- intros; reflexivity.
+        -- fold bn. intros k K1 K2. rewrite O3 by exact K1. rewrite Hbn21. apply O1. exact K2.
+        -- reflexivity.
+        -- fold bn. exists (HPtr hb 0), nxt. cbn [n_free n_used]. split; [exact C3|]. split; [rewrite O3 by lia; rewrite Hbn21; exact C1|]. split.
+           ++ cbn [chain]. split; [reflexivity|]. split; [exact Hlk|]. exists pf. split; [rewrite F3 by exact Hhbn; exact B2|].
+              apply chain_frame with (h := h) (ids := ids); [| intros; reflexivity | exact Hcf].
+              intros x Hx. pose proof (lay_cnt_slots L x i i Hnd) as Q. fold bn in Q. rewrite Hui in Q.
+              assert (x <> hb) by cnt_solve. assert (x <> bn) by cnt_solve. rewrite F3, F2, F1 by assumption. reflexivity.
+           ++ apply chain_frame with (h := h) (ids := ids); [| intros; reflexivity | exact Hct].
+              intros x Hx. assert (x <> hb) by (inversion Hndu; intro E; subst x; contradiction).
+              assert (x <> bn) by (intro E; subst x; apply Hbnu; right; exact Hx). rewrite F3, F2, F1 by assumption. reflexivity.
+        -- apply NoDup_cnt. intro x. pose proof (cnt_lay_set_node x L i (hb :: nth i (l_fr L) []) bs ltac:(lia) ltac:(lia)) as Q.
+           rewrite Hui in Q. apply NoDup_cnt with (x := x) in Hnd. cnt_solve.
+        -- apply Forall_forall. intros x Hx. rewrite L3, L2, L1. apply Hlay.
+           destruct Hx as [<-|Hx]; [apply (In_lay_us L i); exact Hhbin | apply (In_lay_fr L i); exact Hx].
+        -- apply Forall_forall. intros x Hx. rewrite L3, L2, L1. apply Hlay. apply (In_lay_us L i). rewrite Hui. right. exact Hx.
+      * intros x Hx. assert (x <> bn) by (intro E; subst x; apply Hx; apply In_lay_bn).
+        assert (x <> hb) by (intro E; subst x; apply Hx; apply (In_lay_us L i); exact Hhbin). rewrite F3, F2, F1 by assumption. reflexivity.
+    + (* the walk *)
+      cbv beta iota zeta. cbn [length] in Hf.
+      pose proof (t_relC_loop fuel this ids p bn i r fuel h evs nx hd hb nxt bs pf Hb Hlk Hct Hndu Hbnu Hltu Hbnl Hlen Hi Hpf ltac:(lia)) as R.
+      destruct (unlink_next hd r p) as [[b l']|].
+      * destruct R as [h' [hx [bs' [l'' [-> [Hrun [Hch [Hcnt [Hbx [Hlx [Hlen' [N' [C' [O' F']]]]]]]]]]]]]]. rewrite Hrun.
+        exists h', (lay_set_node L i (hx :: nth i (l_fr L) []) (hb :: bs')). split; [reflexivity|]. split; [|split; [exact Hlen'|]].
+        -- assert (Hhxin : In hx (nth i (l_us L) [])).
+           { rewrite Hui. right. apply In_cnt. rewrite Hcnt, one_same. lia. }
+           apply (rep_set_node h h' this ids ids L st i) with (1 := Hrep0); try assumption.
+           ++ lia.
+           ++ intros x Hx Hxn Hxf Hxu. apply F'; [exact Hxn | rewrite <- Hui; exact Hxu].
+           ++ intros; reflexivity.
+           ++ fold bn. intros k K1 K2. apply O'. exact K1.
+           ++ reflexivity.
+           ++ fold bn. exists (HPtr hx 0), (HPtr hb 0). cbn [n_free n_used]. split; [exact C'|]. split; [rewrite O' by lia; exact Hpu|]. split.
+              ** cbn [chain]. split; [reflexivity|]. split; [exact Hlx|]. exists pf. split; [exact Hbx|].
+                 apply chain_frame with (h := h) (ids := ids); [| intros; reflexivity | exact Hcf].
+                 intros x Hx. pose proof (lay_cnt_slots L x i i Hnd) as Q. fold bn in Q. apply F'; [cnt_solve | rewrite <- Hui; cnt_solve].
+              ** exact Hch.
+           ++ apply NoDup_cnt. intro x. pose proof (cnt_lay_set_node x L i (hx :: nth i (l_fr L) []) (hb :: bs') ltac:(lia) ltac:(lia)) as Q.
+              rewrite Hui in Q. apply NoDup_cnt with (x := x) in Hnd. specialize (Hcnt x). cnt_solve.
+           ++ apply Forall_forall. intros x Hx. rewrite Hlen'. apply Hlay.
+              destruct Hx as [<-|Hx]; [apply (In_lay_us L i); exact Hhxin | apply (In_lay_fr L i); exact Hx].
+           ++ apply Forall_forall. intros x Hx. rewrite Hlen'. apply Hlay. apply (In_lay_us L i). rewrite Hui.
+              destruct Hx as [<-|Hx]; [left; reflexivity|]. right. apply In_cnt. apply In_cnt in Hx. rewrite Hcnt. lia.
+        -- intros x Hx. apply F'; [intro E; subst x; apply Hx; apply In_lay_bn|].
+           intro Hin. apply Hx. apply (In_lay_us L i). rewrite Hui. exact Hin.
+      * rewrite R.
+        destruct (t_printUnknown fuel h evs nx this ids L st (addr_of p) Hrep0) as [h' [Hrun [Hrep' [Hlen' Hfrm]]]].
+        rewrite Hrun. cbv beta iota. exists h'. split; [reflexivity|]. split; [exact Hrep'|]. split; [exact Hlen' | exact Hfrm].
+Qed.
+
+(* ------------------------------------------------------------------ releaseNonCachedMemory: the loop vs unlink_next *)
+Lemma t_relN_loop fuel0 this ids p size : forall rest fuel h evs nx cur bp p0 bs,
+  hblock h bp = blk_cells cur p0 -> lookup bp ids = Some (b_hdr cur) -> chain h ids p0 bs rest ->
+  NoDup (bp :: bs) -> Forall (fun b => (b < length h)%nat) (bp :: bs) -> (S (length rest) < fuel)%nat ->
+  match unlink_next cur rest p with
+  | None => src_cache_releaseNonCachedMemory_loop1 fuel0 fuel this (addr_of p) size h evs nx (HPtr bp 0) = Go (h, evs, nx, HNull)
+  | Some (b, l') => exists h' hx bs' l'',
+      l' = cur :: l'' /\
+      src_cache_releaseNonCachedMemory_loop1 fuel0 fuel this (addr_of p) size h evs nx (HPtr bp 0) =
+      Done (tt, h', evs ++ [HFreeBuf (Z.of_N (b_mem b)) size; HFreeRec (HPtr hx 0) sizeof_SimpleStringMemoryBlock], nx) /\
+      chain h' ids (HPtr bp 0) (bp :: bs') (cur :: l'') /\
+      (forall x, cnt x bs = (one hx x + cnt x bs')%nat) /\ lookup hx ids = Some (b_hdr b) /\
+      length h' = length h /\ (forall x, ~ In x (bp :: bs) -> hblock h' x = hblock h x)
+  end.
+Proof.
+  induction rest as [|nb rest IH]; intros fuel h evs nx cur bp p0 bs Hbp Hlk Hc Hnd Hlt Hf.
+  - apply chain_nil_inv in Hc. destruct Hc as [-> ->]. destruct fuel as [|[|fuel]]; [cbn in Hf; lia | cbn in Hf; lia|].
+    cbn [unlink_next src_cache_releaseNonCachedMemory_loop1]. rewrite t_z2b_ptr. cbv beta iota.
+    rewrite (t_blk_next _ _ _ _ Hbp). cbv beta iota. rewrite t_z2b_null. cbv beta iota zeta. reflexivity.
+  - apply chain_cons_inv in Hc. destruct Hc as [hn [bs2 [nxt2 [-> [-> [Hlkn [Hbnb Hc]]]]]]].
+    destruct fuel as [|fuel]; [cbn in Hf; lia|]. cbn [length] in Hf.
+    inversion Hnd as [|? ? Hn1 Hnd1]; subst. inversion Hnd1 as [|? ? Hn2 Hnd2]; subst.
+    inversion Hlt as [|? ? Hl1 Hlt1]; subst. inversion Hlt1 as [|? ? Hl2 Hlt2]; subst.
+    assert (Hbphn : bp <> hn) by (intro E; apply Hn1; left; symmetry; exact E).
+    cbn [unlink_next src_cache_releaseNonCachedMemory_loop1]. rewrite t_z2b_ptr. cbv beta iota.
+    rewrite (t_blk_next _ _ _ _ Hbp). cbv beta iota. rewrite t_z2b_ptr. cbv beta iota.
+    rewrite (t_blk_padd1 _ _ _ _ Hbnb). cbv beta iota. rewrite (t_blk_mem _ _ _ _ Hbnb). cbv beta iota. rewrite t_mem_eq.
+    destruct (mem_is nb p).
+    + cbv beta iota zeta. rewrite (t_blk_next _ _ _ _ Hbnb). cbv beta iota.
+      destruct (t_blk_set_next h bp cur (HPtr hn 0) Hbp nxt2 Hl1) as [h1 [S1 [L1 [F1 B1]]]]. rewrite S1. cbv beta iota.
+      assert (Hb1 : hblock h1 hn = blk_cells nb nxt2) by (rewrite F1 by (intro E; apply Hbphn; symmetry; exact E); exact Hbnb).
+      rewrite (t_destroy fuel0 h1 evs nx this hn nb nxt2 size Hb1). cbv beta iota.
+      exists h1, hn, bs2, rest. split; [reflexivity|]. split; [reflexivity|]. split; [|split; [|split; [|split]]].
+      * cbn [chain]. split; [reflexivity|]. split; [exact Hlk|]. exists nxt2. split; [exact B1|].
+        apply chain_frame with (h := h) (ids := ids); [| intros; reflexivity | exact Hc].
+        intros x Hx. apply F1. intro E. subst x. apply Hn1. right. exact Hx.
+      * intro x. rewrite cnt_cons. reflexivity.
+      * exact Hlkn.
+      * exact L1.
+      * intros x Hx. apply F1. intro E. subst x. apply Hx. left. reflexivity.
+    + cbv beta iota zeta.
+      pose proof (IH fuel h evs nx nb hn nxt2 bs2 Hbnb Hlkn Hc Hnd1 Hlt1 ltac:(lia)) as R.
+      destruct (unlink_next nb rest p) as [[b l']|].
+      * destruct R as [h' [hx [bs' [l'' [-> [Hrun [Hch [Hcnt [Hlx [Hlen' F']]]]]]]]]].
+        exists h', hx, (hn :: bs'), (nb :: l''). split; [reflexivity|]. split; [exact Hrun|].
+        split; [|split; [|split; [|split]]]; try assumption.
+        -- cbn [chain]. split; [reflexivity|]. split; [exact Hlk|]. exists (HPtr hn 0). split; [|exact Hch].
+           rewrite F' by exact Hn1. exact Hbp.
+        -- intro x. rewrite !cnt_cons. rewrite Hcnt. lia.
+        -- intros x Hx. apply F'. intro Hin. apply Hx. right. exact Hin.
+      * exact R.
+Qed.
+
+Lemma t_releaseNonCached fuel h evs nx this ids L st p size :
+  rep h this ids L st -> (length (s_non st) < fuel)%nat ->
+  match unlink (s_non st) p with
+  | Some (b, non') => exists h' L' hx,
+      src_cache_releaseNonCachedMemory fuel h evs nx this (addr_of p) size =
+      FOk (tt, h', evs ++ [HFreeBuf (Z.of_N (b_mem b)) size; HFreeRec (HPtr hx 0) sizeof_SimpleStringMemoryBlock], nx) /\
+      lookup hx ids = Some (b_hdr b) /\
+      rep h' this ids L' {| s_cache := s_cache st; s_non := non'; s_warned := s_warned st; s_next := s_next st |} /\
+      length h' = length h /\ (forall x, ~ In x (lay_blocks L) -> hblock h' x = hblock h x)
+  | None => exists h',
+      src_cache_releaseNonCachedMemory fuel h evs nx this (addr_of p) size =
+      FOk (tt, h', evs ++ (if s_warned st then [] else [HWarn]), nx) /\
+      rep h' this ids L (fst (unknown_release st)) /\ length h' = length h /\
+      (forall x, ~ In x (lay_blocks L) -> hblock h' x = hblock h x)
+  end.
+Proof.
+  intros Hrep Hf. pose proof Hrep as Hrep0. rep_inv Hrep. subst this. set (bt := l_bt L) in *.
+  assert (Hlay : forall x, In x (lay_blocks L) -> (x < length h)%nat) by (apply Forall_forall; exact Hbd).
+  assert (Hbtl : (bt < length h)%nat) by (apply Hlay; apply In_lay_bt).
+  unfold src_cache_releaseNonCachedMemory. rewrite (t_this_padd2 _ _ _ _ _ _ Hbt). cbv beta iota.
+  rewrite (t_this_non _ _ _ _ _ _ Hbt). cbv beta iota.
+  destruct (s_non st) as [|hd r] eqn:Hnoneq.
+  - apply chain_nil_inv in Hnon. destruct Hnon as [-> Hni]. rewrite t_z2b_null. cbv beta iota. change (z2b 0) with false. cbv beta iota zeta.
+    destruct fuel as [|fuel]; [cbn in Hf; lia|]. cbn [src_cache_releaseNonCachedMemory_loop1]. rewrite t_z2b_null. cbv beta iota.
+    destruct (t_printUnknown (S fuel) h evs nx (HPtr bt 0) ids L st (addr_of p) Hrep0) as [h' [Hrun [Hrep' [Hlen' Hfrm]]]].
+    rewrite Hrun. cbv beta iota. cbn [unlink]. exists h'. split; [reflexivity|]. split; [exact Hrep'|]. split; [exact Hlen' | exact Hfrm].
+  - apply chain_cons_inv in Hnon. destruct Hnon as [hb [bs [nxt [Hni [-> [Hlk [Hb Hct]]]]]]].
+    assert (Hhbin : In hb (l_non L)) by (rewrite Hni; left; reflexivity).
+    assert (Hhbl : (hb < length h)%nat) by (apply Hlay; apply In_lay_non; exact Hhbin).
+    assert (Hhbt : hb <> bt) by (pose proof (lay_cnt_slots L hb 0 0 Hnd) as Q; fold bt in Q; cnt_solve).
+    assert (Hndu : NoDup (hb :: bs)).
+    { rewrite <- Hni. apply NoDup_cnt. intro x. apply NoDup_cnt with (x := x) in Hnd. rewrite cnt_lay in Hnd. lia. }
+    assert (Hbtu : ~ In bt (hb :: bs)).
+    { rewrite <- Hni. pose proof (lay_cnt_slots L bt 0 0 Hnd) as Q. fold bt in Q. cnt_solve. }
+    assert (Hltu : Forall (fun b => (b < length h)%nat) (hb :: bs)).
+    { rewrite <- Hni. apply Forall_forall. intros x Hx. apply Hlay. apply In_lay_non. exact Hx. }
+    rewrite t_z2b_ptr. cbv beta iota. rewrite (t_blk_padd1 _ _ _ _ Hb). cbv beta iota. rewrite (t_blk_mem _ _ _ _ Hb). cbv beta iota.
+    rewrite t_mem_eq. cbn [unlink]. destruct (mem_is hd p).
+    + (* the head *)
+      cbv beta iota zeta. rewrite (t_blk_next _ _ _ _ Hb). cbv beta iota.
+      destruct (t_this_set_non h bt (l_bn L) (l_al L) (HPtr hb 0) (s_warned st) Hbt Hbtl nxt) as [h1 [S1 [L1 [F1 B1]]]].
+      rewrite S1. cbv beta iota.
+      assert (Hb1 : hblock h1 hb = blk_cells hd nxt) by (rewrite F1 by exact Hhbt; exact Hb).
+      rewrite (t_destroy fuel h1 evs nx (HPtr bt 0) hb hd nxt size Hb1). cbv beta iota.
+      exists h1, (lay_set_non L bs), hb. split; [reflexivity|]. split; [exact Hlk|]. split; [|split; [exact L1|]].
+      * apply (rep_set_non h h1 (HPtr bt 0) ids ids L st bs r (s_warned st) Hrep0).
+        -- lia.
+        -- intros x _ Hx _. apply F1. exact Hx.
+        -- intros; reflexivity.
+        -- exists nxt. split; [exact B1|]. apply chain_frame with (h := h) (ids := ids); [| intros; reflexivity | exact Hct].
+           intros x Hx. apply F1. intro E. subst x. apply Hbtu. right. exact Hx.
+        -- apply NoDup_cnt. intro x. pose proof (cnt_lay_set_non x L bs) as Q. rewrite Hni in Q.
+           apply NoDup_cnt with (x := x) in Hnd. cnt_solve.
+        -- apply Forall_forall. intros x Hx. rewrite L1. apply Hlay. apply In_lay_non. rewrite Hni. right. exact Hx.
+      * intros x Hx. apply F1. intro E. subst x. apply Hx. apply In_lay_bt.
+    + (* the walk *)
+      cbv beta iota zeta. cbn [length] in Hf.
+      pose proof (t_relN_loop fuel (HPtr bt 0) ids p size r fuel h evs nx hd hb nxt bs Hb Hlk Hct Hndu Hltu ltac:(lia)) as R.
+      destruct (unlink_next hd r p) as [[b l']|].
+      * destruct R as [h' [hx [bs' [l'' [-> [Hrun [Hch [Hcnt [Hlx [Hlen' F']]]]]]]]]]. rewrite Hrun.
+        exists h', (lay_set_non L (hb :: bs')), hx. split; [reflexivity|]. split; [exact Hlx|]. split; [|split; [exact Hlen'|]].
+        -- apply (rep_set_non h h' (HPtr bt 0) ids ids L st (hb :: bs') (hd :: l'') (s_warned st) Hrep0).
+           ++ lia.
+           ++ intros x _ _ Hx. apply F'. rewrite <- Hni. exact Hx.
+           ++ intros; reflexivity.
+           ++ exists (HPtr hb 0). split; [rewrite F' by exact Hbtu; exact Hbt | exact Hch].
+           ++ apply NoDup_cnt. intro x. pose proof (cnt_lay_set_non x L (hb :: bs')) as Q. rewrite Hni in Q.
+              apply NoDup_cnt with (x := x) in Hnd. specialize (Hcnt x). cnt_solve.
+           ++ apply Forall_forall. intros x Hx. rewrite Hlen'. apply Hlay. apply In_lay_non. rewrite Hni.
+              destruct Hx as [<-|Hx]; [left; reflexivity|]. right. apply In_cnt. apply In_cnt in Hx. rewrite Hcnt. lia.
+        -- intros x Hx. apply F'. intro Hin. apply Hx. apply In_lay_non. rewrite Hni. exact Hin.
+      * rewrite R.
+        destruct (t_printUnknown fuel h evs nx (HPtr bt 0) ids L st (addr_of p) Hrep0) as [h' [Hrun [Hrep' [Hlen' Hfrm]]]].
+        rewrite Hrun. cbv beta iota. exists h'. split; [reflexivity|]. split; [exact Hrep'|]. split; [exact Hlen' | exact Hfrm].
+Qed.
+
+(* ------------------------------------------------------------------ dealloc *)
+Lemma warn_new_iff (w : bool) : In HWarn (if w then [] else [HWarn]) <-> negb w = true.
+Proof. destruct w; cbn; split; intro H; try discriminate; try (destruct H as [H|[]]; discriminate); try destruct H; auto. Qed.
+Lemma warn_new_erase ids (w : bool) : erase_all ids (if w then [] else [HWarn]) = [] /\ Forall (resolved ids) (if w then [] else [HWarn]).
+Proof. destruct w; split; try reflexivity; repeat constructor. Qed.
+
+Theorem src_cache_dealloc_spec : forall fuel h evs this ids L st p n,
+  rep h this ids L st -> fuel_ok fuel st ->
+  exists h' evs' nx' L',
+    src_cache_dealloc fuel h evs (Z.of_N (s_next st)) this (addr_of p) (Z.of_N n) = FOk (tt, h', evs', nx') /\
+    o_ret (snd (dealloc st p n)) = None /\
+    tie_post h evs L this (dealloc st p n) h' evs' nx' ids L'.
+Proof.
+  intros fuel h evs this ids L st p n Hrep Hfuel. destruct Hfuel as [H5 [Hfn Hfc]]. pose proof Hrep as Hrep0. rep_inv Hrep.
+  subst this. set (bt := l_bt L) in *. set (bn := l_bn L) in *.
+  assert (Hsz : forall i, (i < 5)%nat ->
+            nth_error (hblock h bn) (3 * i) = Some (VInt (Z.of_N (n_size (nth i (s_cache st) dnode))))).
+  { intros i Hi. destruct (Hnodes i Hi) as [pf [pu [A _]]]. exact A. }
+  unfold src_cache_dealloc, dealloc. rewrite t_isCached. cbv beta iota. rewrite b2z_z2b.
+  destruct (is_cached n) eqn:Hcach.
+  - rewrite (t_getIndex h bt bn _ _ _ (s_cache st) Hbt Hlen Hc Hsz fuel evs (Z.of_N (s_next st)) n H5). cbv beta iota zeta.
+    set (i := index_for (s_cache st) n).
+    assert (Hi : (i < 5)%nat) by (unfold i; rewrite <- Hc; apply index_for_bound; lia).
+    rewrite (t_this_padd1 _ _ _ _ _ _ Hbt). cbv beta iota. rewrite (t_this_cache _ _ _ _ _ _ Hbt). cbv beta iota.
+    rewrite (t_node_ptr _ _ Hlen i Hi). cbv beta iota.
+    assert (Hfu : (length (n_used (nth i (s_cache st) dnode)) < fuel)%nat).
+    { apply (Hfc (nth i (s_cache st) dnode)). apply nth_In. lia. }
+    pose proof (t_releaseCached fuel h evs (Z.of_N (s_next st)) (HPtr bt 0) ids L st i p Hrep0 Hi Hfu) as R. fold bn in R.
+    destruct (unlink (n_used (nth i (s_cache st) dnode)) p) as [[b used']|].
+    + destruct R as [h' [L' [Hrun [Hrep' [Hlen' Hfrm]]]]]. rewrite Hrun. cbv beta iota. cbn [finish].
+      exists h', evs, (Z.of_N (s_next st)), L'. split; [reflexivity|]. split; [reflexivity|].
+      exists []. split; [rewrite app_nil_r; reflexivity|]. cbn [fst snd s_next o_evs o_warn mk_out with_cache].
+      split; [reflexivity|]. split; [exact Hrep'|]. split; [reflexivity|]. split; [constructor|]. split; [exact no_warn_iff|].
+      split; [intros x _ Hx; apply Hfrm; exact Hx | lia].
+    + destruct R as [h' [Hrun [Hrep' [Hlen' Hfrm]]]]. rewrite Hrun. cbv beta iota. cbn [finish].
+      exists h', (evs ++ (if s_warned st then [] else [HWarn])), (Z.of_N (s_next st)), L. split; [reflexivity|]. split; [reflexivity|].
+      exists (if s_warned st then [] else [HWarn]). split; [reflexivity|]. unfold unknown_release in *. cbn [fst snd s_next o_evs o_warn mk_out] in *.
+      split; [reflexivity|]. split; [exact Hrep'|]. destruct (warn_new_erase ids (s_warned st)) as [E1 E2].
+      split; [exact E1|]. split; [exact E2|]. split; [apply warn_new_iff|].
+      split; [intros x _ Hx; apply Hfrm; exact Hx | lia].
+  - pose proof (t_releaseNonCached fuel h evs (Z.of_N (s_next st)) (HPtr bt 0) ids L st p (Z.of_N n) Hrep0 Hfn) as R.
+    destruct (unlink (s_non st) p) as [[b non']|].
+    + destruct R as [h' [L' [hx [Hrun [Hlx [Hrep' [Hlen' Hfrm]]]]]]]. rewrite Hrun. cbv beta iota. cbn [finish].
+      eexists h', _, (Z.of_N (s_next st)), L'. split; [reflexivity|]. split; [reflexivity|].
+      eexists. split; [reflexivity|]. cbn [fst snd s_next o_evs o_warn mk_out].
+      split; [reflexivity|]. split; [exact Hrep'|]. split; [|split; [|split; [|split]]].
+      * unfold erase_all. cbn [flat_map erase app]. rewrite Hlx. rewrite !N2Z.id. reflexivity.
+      * constructor; [exact I|]. constructor; [|constructor]. cbn [resolved]. rewrite Hlx. discriminate.
+      * split; [|discriminate]. intros [E|[E|[]]]; discriminate E.
+      * intros x _ Hx. apply Hfrm. exact Hx.
+      * lia.
+    + destruct R as [h' [Hrun [Hrep' [Hlen' Hfrm]]]]. rewrite Hrun. cbv beta iota. cbn [finish].
+      exists h', (evs ++ (if s_warned st then [] else [HWarn])), (Z.of_N (s_next st)), L. split; [reflexivity|]. split; [reflexivity|].
+      exists (if s_warned st then [] else [HWarn]). split; [reflexivity|]. unfold unknown_release in *. cbn [fst snd s_next o_evs o_warn mk_out] in *.
+      split; [reflexivity|]. split; [exact Hrep'|]. destruct (warn_new_erase ids (s_warned st)) as [E1 E2].
+      split; [exact E1|]. split; [exact E2|]. split; [apply warn_new_iff|].
+      split; [intros x _ Hx; apply Hfrm; exact Hx | lia].
+Qed.
+
+(* ------------------------------------------------------------------ clearing one list head of node i *)
+Lemma set_nth_set_nth x y : forall c i, set_nth i y (set_nth i x c) = set_nth i y c.
+Proof. induction c as [|z c IH]; intros [|i]; cbn; auto. f_equal. apply IH. Qed.
+
+Lemma t_clear_free_store h this ids L st i : rep h this ids L st -> (i < 5)%nat ->
+  exists h1, hstore h (HPtr (l_bn L) (Z.of_nat (3 * i + 1))) (VPtr HNull) = Some h1 /\
+    rep h1 this ids (lay_set_node L i [] (nth i (l_us L) []))
+        (with_cache st (set_nth i {| n_size := n_size (nth i (s_cache st) dnode); n_free := [];
+                                     n_used := n_used (nth i (s_cache st) dnode) |} (s_cache st))) /\
+    length h1 = length h /\ (forall x, x <> l_bn L -> hblock h1 x = hblock h x).
+Proof.
+  intros Hrep Hi. pose proof Hrep as Hrep0. rep_inv Hrep. set (bn := l_bn L) in *.
+  destruct (Hnodes i Hi) as [pf [pu [Hs [Hpf [Hpu [Hcf Hcu]]]]]].
+  assert (Hlay : forall x, In x (lay_blocks L) -> (x < length h)%nat) by (apply Forall_forall; exact Hbd).
+  destruct (t_node_store h bn (3 * i + 1) (VPtr HNull) Hlen ltac:(lia) (Hlay _ (In_lay_bn L))) as [h1 [S1 [L1 [F1 [N1 [C1 O1]]]]]].
+  exists h1. split; [exact S1|]. split; [|split; [exact L1 | exact F1]].
+  apply (rep_set_node h h1 this ids ids L st i) with (1 := Hrep0); try assumption.
+  - lia.
+  - intros x _ Hx _ _. apply F1. exact Hx.
+  - intros; reflexivity.
+  - fold bn. intros k K1 _. apply O1. exact K1.
+  - reflexivity.
+  - fold bn. exists HNull, pu. cbn [n_free n_used]. split; [exact C1|]. split; [rewrite O1 by lia; exact Hpu|]. split; [reflexivity|].
+    apply chain_frame with (h := h) (ids := ids); [| intros; reflexivity | exact Hcu].
+    intros x Hx. apply F1. pose proof (lay_cnt_slots L x i i Hnd) as Q. fold bn in Q. cnt_solve.
+  - apply NoDup_cnt. intro x. pose proof (cnt_lay_set_node x L i [] (nth i (l_us L) []) ltac:(lia) ltac:(lia)) as Q.
+    apply NoDup_cnt with (x := x) in Hnd. cnt_solve.
+  - constructor.
+  - apply Forall_forall. intros x Hx. rewrite L1. apply Hlay. apply (In_lay_us L i). exact Hx.
+Qed.
+
+Lemma t_clear_used_store h this ids L st i : rep h this ids L st -> (i < 5)%nat ->
+  exists h1, hstore h (HPtr (l_bn L) (Z.of_nat (3 * i + 2))) (VPtr HNull) = Some h1 /\
+    rep h1 this ids (lay_set_node L i (nth i (l_fr L) []) [])
+        (with_cache st (set_nth i {| n_size := n_size (nth i (s_cache st) dnode); n_free := n_free (nth i (s_cache st) dnode);
+                                     n_used := [] |} (s_cache st))) /\
+    length h1 = length h /\ (forall x, x <> l_bn L -> hblock h1 x = hblock h x).
+Proof.
+  intros Hrep Hi. pose proof Hrep as Hrep0. rep_inv Hrep. set (bn := l_bn L) in *.
+  destruct (Hnodes i Hi) as [pf [pu [Hs [Hpf [Hpu [Hcf Hcu]]]]]].
+  assert (Hlay : forall x, In x (lay_blocks L) -> (x < length h)%nat) by (apply Forall_forall; exact Hbd).
+  destruct (t_node_store h bn (3 * i + 2) (VPtr HNull) Hlen ltac:(lia) (Hlay _ (In_lay_bn L))) as [h1 [S1 [L1 [F1 [N1 [C1 O1]]]]]].
+  exists h1. split; [exact S1|]. split; [|split; [exact L1 | exact F1]].
+  apply (rep_set_node h h1 this ids ids L st i) with (1 := Hrep0); try assumption.
+  - lia.
+  - intros x _ Hx _ _. apply F1. exact Hx.
+  - intros; reflexivity.
+  - fold bn. intros k _ K2. apply O1. exact K2.
+  - reflexivity.
+  - fold bn. exists pf, HNull. cbn [n_free n_used]. split; [rewrite O1 by lia; exact Hpf|]. split; [exact C1|]. split; [|reflexivity].
+    apply chain_frame with (h := h) (ids := ids); [| intros; reflexivity | exact Hcf].
+    intros x Hx. apply F1. pose proof (lay_cnt_slots L x i i Hnd) as Q. fold bn in Q. cnt_solve.
+  - apply NoDup_cnt. intro x. pose proof (cnt_lay_set_node x L i (nth i (l_fr L) []) [] ltac:(lia) ltac:(lia)) as Q.
+    apply NoDup_cnt with (x := x) in Hnd. cnt_solve.
+  - apply Forall_forall. intros x Hx. rewrite L1. apply Hlay. apply (In_lay_fr L i). exact Hx.
+  - constructor.
+Qed.
+
+Lemma In_lay_set_node_sub L i fr us x :
+  (forall y, In y fr -> In y (lay_blocks L)) -> (forall y, In y us -> In y (lay_blocks L)) ->
+  In x (lay_blocks (lay_set_node L i fr us)) -> In x (lay_blocks L).
+Proof. intros H1 H2 H. destruct (In_lay_set_node _ _ _ _ _ H) as [E|[E|E]]; [apply H1 | apply H2 |]; exact E. Qed.
+
+(* ------------------------------------------------------------------ the model's loops over the nodes, index by index *)
+Fixpoint clear_from (f : mnode -> mnode * list ev) (i k : nat) (c : list mnode) : list mnode * list ev :=
+  match k with
+  | O => (c, [])
+  | S k' => match clear_from f (S i) k' (set_nth i (fst (f (nth i c dnode))) c) with
+            | (c', e) => (c', snd (f (nth i c dnode)) ++ e)
+            end
+  end.
+Lemma clear_from_S f i k c : clear_from f i (S k) c =
+  (fst (clear_from f (S i) k (set_nth i (fst (f (nth i c dnode))) c)),
+   snd (f (nth i c dnode)) ++ snd (clear_from f (S i) k (set_nth i (fst (f (nth i c dnode))) c))).
+Proof. cbn [clear_from]. destruct (clear_from f (S i) k _). reflexivity. Qed.
+Lemma clear_from_free c : length c = 5%nat -> clear_from clear_node_free 0 5 c = clear_nodes clear_node_free c.
+Proof. intro H. do 5 (destruct c as [|? c]; [discriminate H|]). destruct c; [|discriminate H]. cbn. rewrite !app_nil_r. reflexivity. Qed.
+Lemma clear_from_all c : length c = 5%nat -> clear_from clear_node_all 0 5 c = clear_nodes clear_node_all c.
+Proof. intro H. do 5 (destruct c as [|? c]; [discriminate H|]). destruct c; [|discriminate H]. cbn. rewrite !app_nil_r. reflexivity. Qed.
+
+Lemma t_lt5 i : (i < 5)%nat -> z2b (c_lt (Z.of_nat i) 5) = true.
+Proof. intro H. unfold c_lt. replace (Z.of_nat i <? 5) with true by (symmetry; apply Z.ltb_lt; lia). reflexivity. Qed.
+Lemma t_next_i i : (i < 5)%nat -> cw 64 false (Z.of_nat i + 1) = Z.of_nat (S i).
+Proof. intro H. rewrite cw_u_small; [lia|]. change (2 ^ 64) with 18446744073709551616. lia. Qed.
+
+(* ------------------------------------------------------------------ clearCache *)
+Lemma t_clearCache_loop fuel0 this ids nx : forall d i fuel h evs L st,
+  rep h this ids L st -> (i + d = 5)%nat -> (d < fuel)%nat ->
+  (forall nd, In nd (s_cache st) -> (length (n_free nd) < fuel0)%nat) ->
+  exists h' L' new,
+    src_cache_clearCache_loop1 fuel0 fuel this h evs nx (Z.of_nat i) = Go (h', evs ++ new, nx, 5) /\
+    rep h' this ids L' (with_cache st (fst (clear_from clear_node_free i d (s_cache st)))) /\
+    erase_all ids new = snd (clear_from clear_node_free i d (s_cache st)) /\ Forall (resolved ids) new /\ has_warn new = false /\
+    length h' = length h /\ (forall x, ~ In x (lay_blocks L) -> hblock h' x = hblock h x) /\
+    (forall x, In x (lay_blocks L') -> In x (lay_blocks L)).
+Proof.
+  induction d as [|d IH]; intros i fuel h evs L st Hrep Hid Hf Hfl; (destruct fuel as [|fuel]; [lia|]); cbn [src_cache_clearCache_loop1].
+  - assert (i = 5%nat) by lia. subst i. change (z2b (c_lt (Z.of_nat 5) 5)) with false. cbv beta iota.
+    exists h, L, []. rewrite app_nil_r. split; [reflexivity|]. cbn [clear_from fst snd].
+    split; [apply (rep_next h this ids L st); [reflexivity | reflexivity | reflexivity | exact Hrep]|].
+    split; [reflexivity|]. split; [constructor|]. split; [reflexivity|]. split; [reflexivity|]. split; intros; [reflexivity | assumption].
+  - assert (Hi : (i < 5)%nat) by lia. rewrite (t_lt5 i Hi). cbv beta iota.
+    pose proof Hrep as Hrep0. rep_inv Hrep. subst this. set (bt := l_bt L) in *. set (bn := l_bn L) in *.
+    destruct (Hnodes i Hi) as [pf [pu [Hs [Hpf [Hpu [Hcf Hcu]]]]]].
+    rewrite (t_this_padd1 _ _ _ _ _ _ Hbt). cbv beta iota. rewrite (t_this_cache _ _ _ _ _ _ Hbt). cbv beta iota.
+    rewrite (t_node_ptr _ _ Hlen i Hi). cbv beta iota. rewrite (t_node_padd1 h bn Hlen i Hi). cbv beta iota.
+    rewrite (t_load_ptr _ _ _ _ Hpf). cbv beta iota. rewrite (t_load_int _ _ _ _ Hs). cbv beta iota.
+    assert (Hfi : (length (n_free (nth i (s_cache st) dnode)) < fuel0)%nat) by (apply Hfl; apply nth_In; lia).
+    rewrite (t_destroyList fuel0 (HPtr bt 0) _ h ids nx pf _ _ evs Hcf Hfi). cbv beta iota.
+    rewrite (t_this_padd1 _ _ _ _ _ _ Hbt). cbv beta iota. rewrite (t_this_cache _ _ _ _ _ _ Hbt). cbv beta iota.
+    rewrite (t_node_ptr _ _ Hlen i Hi). cbv beta iota. rewrite (t_node_padd1 h bn Hlen i Hi). cbv beta iota.
+    destruct (t_clear_free_store h (HPtr bt 0) ids L st i Hrep0 Hi) as [h1 [S1 [Hrep1 [L1 F1]]]]. fold bn in S1.
+    rewrite S1. cbv beta iota zeta. rewrite (t_next_i i Hi).
+    set (st1 := with_cache st (set_nth i {| n_size := n_size (nth i (s_cache st) dnode); n_free := [];
+                                            n_used := n_used (nth i (s_cache st) dnode) |} (s_cache st))) in *.
+    set (L1' := lay_set_node L i [] (nth i (l_us L) [])) in *.
+    destruct (IH (S i) fuel h1 (evs ++ destroy_hevs (Z.of_N (n_size (nth i (s_cache st) dnode))) (nth i (l_fr L) [])
+                                          (n_free (nth i (s_cache st) dnode))) L1' st1 Hrep1 ltac:(lia) ltac:(lia))
+      as [h' [L' [new [Hrun [Hrep' [Her [Hres [Hw [Hlen' [Hfrm Hsub]]]]]]]]]].
+    { intros nd Hin. unfold st1 in Hin. cbn [with_cache s_cache] in Hin. apply set_nth_In in Hin. destruct Hin as [->|Hin].
+      - cbn [n_free length]. lia.
+      - apply Hfl. exact Hin. }
+    assert (Hsub1 : forall x, In x (lay_blocks L1') -> In x (lay_blocks L)).
+    { intros x Hx. apply (In_lay_set_node_sub L i [] (nth i (l_us L) []) x); [intros y [] | intros y Hy; apply (In_lay_us L i); exact Hy | exact Hx]. }
+    destruct (t_destroy_hevs_erase h ids ids (n_size (nth i (s_cache st) dnode)) _ _ _ Hcf ltac:(intros; reflexivity)) as [E1 [E2 E3]].
+    exists h', L', (destroy_hevs (Z.of_N (n_size (nth i (s_cache st) dnode))) (nth i (l_fr L) []) (n_free (nth i (s_cache st) dnode)) ++ new).
+    rewrite app_assoc. split; [exact Hrun|]. rewrite clear_from_S. cbn [fst snd].
+    split; [exact Hrep'|]. split; [rewrite erase_all_app, E1; f_equal; exact Her|]. split; [apply Forall_app; split; assumption|].
+    split; [rewrite has_warn_app, E3, Hw; reflexivity|]. split; [lia|]. split.
+    + intros x Hx. rewrite Hfrm by (intro Hin; apply Hx; apply Hsub1; exact Hin). apply F1. intro E. subst x. apply Hx. apply In_lay_bn.
+    + intros x Hx. apply Hsub1. apply Hsub. exact Hx.
+Qed.
+
+Theorem src_cache_clearCache_spec : forall fuel h evs this ids L st,
+  rep h this ids L st -> fuel_ok fuel st ->
+  exists h' evs' nx' L',
+    src_cache_clearCache fuel h evs (Z.of_N (s_next st)) this = FOk (tt, h', evs', nx') /\
+    o_ret (snd (clear_cache st)) = None /\
+    tie_post h evs L this (clear_cache st) h' evs' nx' ids L'.
+Proof.
+  intros fuel h evs this ids L st Hrep [H5 [Hfn Hfc]].
+  destruct (t_clearCache_loop fuel this ids (Z.of_N (s_next st)) 5 0 fuel h evs L st Hrep eq_refl H5)
+    as [h' [L' [new [Hrun [Hrep' [Her [Hres [Hw [Hlen' [Hfrm Hsub]]]]]]]]]].
+  { intros nd Hin. exact (proj1 (Hfc nd Hin)). }
+  change (Z.of_nat 0) with 0 in Hrun. unfold src_cache_clearCache. cbv zeta. rewrite Hrun. cbv beta iota. cbn [finish].
+  assert (Hc : length (s_cache st) = 5%nat) by (destruct Hrep as [_ [_ [Hc _]]]; exact Hc).
+  rewrite (clear_from_free _ Hc) in Hrep', Her. unfold clear_cache.
+  destruct (clear_nodes clear_node_free (s_cache st)) as [c e]. cbn [fst snd] in *.
+  exists h', (evs ++ new), (Z.of_N (s_next st)), L'. split; [reflexivity|]. split; [reflexivity|].
+  exists new. split; [reflexivity|]. cbn [fst snd o_evs o_warn mk_out with_cache s_next].
+  split; [reflexivity|]. split; [exact Hrep'|]. split; [exact Her|]. split; [exact Hres|]. split.
+  - rewrite <- has_warn_In. rewrite Hw. split; intro H; discriminate H.
+  - split; [intros x _ Hx; apply Hfrm; exact Hx | lia].
+Qed.
+
+(* ------------------------------------------------------------------ clearAllIncludingCurrentlyUsedMemory *)
+Lemma t_clearAll_loop fuel0 this ids nx : forall d i fuel h evs L st,
+  rep h this ids L st -> (i + d = 5)%nat -> (d < fuel)%nat ->
+  (forall nd, In nd (s_cache st) -> (length (n_free nd) < fuel0)%nat /\ (length (n_used nd) < fuel0)%nat) ->
+  exists h' L' new,
+    src_cache_clearAllIncludingCurrentlyUsedMemory_loop1 fuel0 fuel this h evs nx (Z.of_nat i) = Go (h', evs ++ new, nx, 5) /\
+    rep h' this ids L' (with_cache st (fst (clear_from clear_node_all i d (s_cache st)))) /\
+    erase_all ids new = snd (clear_from clear_node_all i d (s_cache st)) /\ Forall (resolved ids) new /\ has_warn new = false /\
+    length h' = length h /\ (forall x, ~ In x (lay_blocks L) -> hblock h' x = hblock h x) /\
+    (forall x, In x (lay_blocks L') -> In x (lay_blocks L)).
+Proof.
+  induction d as [|d IH]; intros i fuel h evs L st Hrep Hid Hf Hfl; (destruct fuel as [|fuel]; [lia|]);
+    cbn [src_cache_clearAllIncludingCurrentlyUsedMemory_loop1].
+  - assert (i = 5%nat) by lia. subst i. change (z2b (c_lt (Z.of_nat 5) 5)) with false. cbv beta iota.
+    exists h, L, []. rewrite app_nil_r. split; [reflexivity|]. cbn [clear_from fst snd].
+    split; [apply (rep_next h this ids L st); [reflexivity | reflexivity | reflexivity | exact Hrep]|].
+    split; [reflexivity|]. split; [constructor|]. split; [reflexivity|]. split; [reflexivity|]. split; intros; [reflexivity | assumption].
+  - assert (Hi : (i < 5)%nat) by lia. rewrite (t_lt5 i Hi). cbv beta iota.
+    pose proof Hrep as Hrep0. rep_inv Hrep. subst this. set (bt := l_bt L) in *. set (bn := l_bn L) in *.
+    destruct (Hnodes i Hi) as [pf [pu [Hs [Hpf [Hpu [Hcf Hcu]]]]]].
+    set (nd := nth i (s_cache st) dnode) in *.
+    assert (Hfi : (length (n_free nd) < fuel0)%nat /\ (length (n_used nd) < fuel0)%nat) by (apply Hfl; apply nth_In; lia).
+    rewrite (t_this_padd1 _ _ _ _ _ _ Hbt). cbv beta iota. rewrite (t_this_cache _ _ _ _ _ _ Hbt). cbv beta iota.
+    rewrite (t_node_ptr _ _ Hlen i Hi). cbv beta iota. rewrite (t_node_padd1 h bn Hlen i Hi). cbv beta iota.
+    rewrite (t_load_ptr _ _ _ _ Hpf). cbv beta iota. rewrite (t_load_int _ _ _ _ Hs). cbv beta iota.
+    rewrite (t_destroyList fuel0 (HPtr bt 0) _ h ids nx pf _ _ evs Hcf (proj1 Hfi)). cbv beta iota.
+    rewrite (t_this_padd1 _ _ _ _ _ _ Hbt). cbv beta iota. rewrite (t_this_cache _ _ _ _ _ _ Hbt). cbv beta iota.
+    rewrite (t_node_ptr _ _ Hlen i Hi). cbv beta iota. rewrite (t_node_padd2 h bn Hlen i Hi). cbv beta iota.
+    rewrite (t_load_ptr _ _ _ _ Hpu). cbv beta iota. rewrite (t_load_int _ _ _ _ Hs). cbv beta iota.
+    rewrite (t_destroyList fuel0 (HPtr bt 0) _ h ids nx pu _ _ _ Hcu (proj2 Hfi)). cbv beta iota.
+    rewrite (t_this_padd1 _ _ _ _ _ _ Hbt). cbv beta iota. rewrite (t_this_cache _ _ _ _ _ _ Hbt). cbv beta iota.
+    rewrite (t_node_ptr _ _ Hlen i Hi). cbv beta iota. rewrite (t_node_padd1 h bn Hlen i Hi). cbv beta iota.
+    destruct (t_clear_free_store h (HPtr bt 0) ids L st i Hrep0 Hi) as [h1 [S1 [Hrep1 [L1 F1]]]]. fold bn nd in S1, Hrep1.
+    rewrite S1. cbv beta iota.
+    set (st1 := with_cache st (set_nth i {| n_size := n_size nd; n_free := []; n_used := n_used nd |} (s_cache st))) in *.
+    set (L1' := lay_set_node L i [] (nth i (l_us L) [])) in *.
+    destruct (t_clear_used_store h1 (HPtr bt 0) ids L1' st1 i Hrep1 Hi) as [h2 [S2 [Hrep2 [L2 F2]]]].
+    change (l_bn L1') with bn in S2, F2.
+    pose proof Hrep1 as Hrep1'. rep_inv Hrep1'. change (l_bt L1') with bt in *. change (l_bn L1') with bn in *.
+    rewrite (t_this_padd1 _ _ _ _ _ _ Hbt0). cbv beta iota. rewrite (t_this_cache _ _ _ _ _ _ Hbt0). cbv beta iota.
+    rewrite (t_node_ptr _ _ Hlen0 i Hi). cbv beta iota. rewrite (t_node_padd2 h1 bn Hlen0 i Hi). cbv beta iota.
+    rewrite S2. cbv beta iota zeta. rewrite (t_next_i i Hi).
+    set (L2' := lay_set_node L1' i (nth i (l_fr L1') []) []) in *.
+    set (st2 := with_cache st (set_nth i {| n_size := n_size nd; n_free := []; n_used := [] |} (s_cache st))).
+    assert (Hrep2' : rep h2 (HPtr bt 0) ids L2' st2).
+    { unfold st1 in Hrep2. cbn [with_cache s_cache s_non s_warned s_next] in Hrep2. rewrite set_nth_same in Hrep2 by lia.
+      rewrite set_nth_set_nth in Hrep2. cbn [n_size n_free] in Hrep2. exact Hrep2. }
+    set (D1 := destroy_hevs (Z.of_N (n_size nd)) (nth i (l_fr L) []) (n_free nd)) in *.
+    set (D2 := destroy_hevs (Z.of_N (n_size nd)) (nth i (l_us L) []) (n_used nd)) in *.
+    destruct (IH (S i) fuel h2 ((evs ++ D1) ++ D2) L2' st2 Hrep2' ltac:(lia) ltac:(lia))
+      as [h' [L' [new [Hrun [Hrep' [Her [Hres [Hw [Hlen' [Hfrm Hsub]]]]]]]]]].
+    { intros x Hin. unfold st2 in Hin. cbn [with_cache s_cache] in Hin. apply set_nth_In in Hin. destruct Hin as [->|Hin].
+      - cbn [n_free n_used length]. lia.
+      - apply Hfl. exact Hin. }
+    assert (Hsub1 : forall x, In x (lay_blocks L1') -> In x (lay_blocks L)).
+    { intros x Hx. apply (In_lay_set_node_sub L i [] (nth i (l_us L) []) x); [intros y [] | intros y Hy; apply (In_lay_us L i); exact Hy | exact Hx]. }
+    assert (Hsub2 : forall x, In x (lay_blocks L2') -> In x (lay_blocks L1')).
+    { intros x Hx. apply (In_lay_set_node_sub L1' i (nth i (l_fr L1') []) [] x); [intros y Hy; apply (In_lay_fr L1' i); exact Hy | intros y [] | exact Hx]. }
+    destruct (t_destroy_hevs_erase h ids ids (n_size nd) _ _ _ Hcf ltac:(intros; reflexivity)) as [E1 [E2 E3]].
+    destruct (t_destroy_hevs_erase h ids ids (n_size nd) _ _ _ Hcu ltac:(intros; reflexivity)) as [G1 [G2 G3]]. fold D1 in E1, E2, E3. fold D2 in G1, G2, G3.
+    exists h', L', (D1 ++ D2 ++ new).
+    replace (evs ++ D1 ++ D2 ++ new) with (((evs ++ D1) ++ D2) ++ new) by (rewrite <- !app_assoc; reflexivity).
+    split; [exact Hrun|]. rewrite clear_from_S. fold nd. cbn [fst snd clear_node_all].
+    split; [exact Hrep'|]. split.
+    { rewrite !erase_all_app, E1, G1. rewrite <- app_assoc. f_equal. f_equal. exact Her. }
+    split; [apply Forall_app; split; [assumption | apply Forall_app; split; assumption]|].
+    split; [rewrite !has_warn_app, E3, G3, Hw; reflexivity|]. split; [lia|]. split.
+    + intros x Hx. assert (x <> bn) by (intro E; subst x; apply Hx; apply In_lay_bn).
+      rewrite Hfrm by (intro Hin; apply Hx; apply Hsub1; apply Hsub2; exact Hin). rewrite F2 by assumption. apply F1. assumption.
+    + intros x Hx. apply Hsub1. apply Hsub2. apply Hsub. exact Hx.
+Qed.
+
+Theorem src_cache_clearAll_spec : forall fuel h evs this ids L st,
+  rep h this ids L st -> fuel_ok fuel st ->
+  exists h' evs' nx' L',
+    src_cache_clearAllIncludingCurrentlyUsedMemory fuel h evs (Z.of_N (s_next st)) this = FOk (tt, h', evs', nx') /\
+    o_ret (snd (clear_all st)) = None /\
+    tie_post h evs L this (clear_all st) h' evs' nx' ids L'.
+Proof.
+  intros fuel h evs this ids L st Hrep [H5 [Hfn Hfc]].
+  destruct (t_clearAll_loop fuel this ids (Z.of_N (s_next st)) 5 0 fuel h evs L st Hrep eq_refl H5 Hfc)
+    as [h1 [L1 [new [Hrun [Hrep1 [Her [Hres [Hw [Hlen1 [Hfrm Hsub]]]]]]]]]].
+  change (Z.of_nat 0) with 0 in Hrun. unfold src_cache_clearAllIncludingCurrentlyUsedMemory. cbv zeta. rewrite Hrun. cbv beta iota.
+  assert (Hc : length (s_cache st) = 5%nat) by (destruct Hrep as [_ [_ [Hc _]]]; exact Hc).
+  rewrite (clear_from_all _ Hc) in Hrep1, Her. unfold clear_all.
+  destruct (clear_nodes clear_node_all (s_cache st)) as [c e]. cbn [fst snd] in *.
+  set (st1 := with_cache st c) in *.
+  pose proof Hrep1 as Hrep1'. rep_inv Hrep1'. subst this. cbn [st1 with_cache s_non s_warned] in Hbt, Hnon.
+  assert (Hlay : forall x, In x (lay_blocks L1) -> (x < length h1)%nat) by (apply Forall_forall; exact Hbd).
+  rewrite (t_this_padd2 _ _ _ _ _ _ Hbt). cbv beta iota. rewrite (t_this_non _ _ _ _ _ _ Hbt). cbv beta iota.
+  rewrite (t_destroyList fuel (HPtr (l_bt L1) 0) 0 h1 ids (Z.of_N (s_next st)) pn _ _ (evs ++ new) Hnon Hfn). cbv beta iota.
+  rewrite (t_this_padd2 _ _ _ _ _ _ Hbt). cbv beta iota.
+  destruct (t_this_set_non h1 (l_bt L1) (l_bn L1) (l_al L1) pn (s_warned st) Hbt (Hlay _ (In_lay_bt L1)) HNull) as [h2 [S2 [L2 [F2 B2]]]].
+  rewrite S2. cbv beta iota. cbn [finish].
+  destruct (t_destroy_hevs_erase h1 ids ids 0%N _ _ _ Hnon ltac:(intros; reflexivity)) as [E1 [E2 E3]].
+  change (Z.of_N 0) with 0 in E1, E2, E3.
+  exists h2, ((evs ++ new) ++ destroy_hevs 0 (l_non L1) (s_non st)), (Z.of_N (s_next st)), (lay_set_non L1 []).
+  split; [reflexivity|]. split; [reflexivity|].
+  exists (new ++ destroy_hevs 0 (l_non L1) (s_non st)). split; [rewrite app_assoc; reflexivity|].
+  cbn [fst snd o_evs o_warn mk_out s_next]. split; [reflexivity|]. split; [|split; [|split; [|split; [|split]]]].
+  - apply (rep_set_non h1 h2 (HPtr (l_bt L1) 0) ids ids L1 st1 [] [] (s_warned st) Hrep1).
+    + lia.
+    + intros x _ Hx _. apply F2. exact Hx.
+    + intros; reflexivity.
+    + exists HNull. split; [exact B2 | reflexivity].
+    + apply NoDup_cnt. intro x. pose proof (cnt_lay_set_non x L1 []) as Q. apply NoDup_cnt with (x := x) in Hnd. cnt_solve.
+    + constructor.
+  - rewrite erase_all_app, Her, E1. reflexivity.
+  - apply Forall_app. split; assumption.
+  - rewrite <- has_warn_In. rewrite has_warn_app, Hw, E3. split; intro H; discriminate H.
+  - intros x Hx1 Hx2. rewrite F2; [apply Hfrm; exact Hx2|]. intro E. subst x. apply Hx2. apply Hsub. apply In_lay_bt.
+  - lia.
+Qed.
+
+(* ------------------------------------------------------------------ a concrete heap: class 32 has one free and one used block,
+   one non-cached block, one block (5) that does not belong to the cache; ordinals 1..6 are taken, the next is 7 *)
+Definition ex_arr (f0 u0 u1 : hptr) : list val :=
+  [VInt 32; VPtr f0; VPtr u0; VInt 64; VPtr HNull; VPtr u1; VInt 96; VPtr HNull; VPtr HNull;
+   VInt 128; VPtr HNull; VPtr HNull; VInt 256; VPtr HNull; VPtr HNull].
+Definition ex_heap : heap :=
+  [ [VInt 7; VPtr (HPtr 1 0); VPtr (HPtr 4 0); VInt 0]; ex_arr (HPtr 2 0) (HPtr 3 0) HNull;
+    [VPtr HNull; VInt 2]; [VPtr HNull; VInt 4]; [VPtr HNull; VInt 6]; [VInt 99] ].
+Definition ex_ids : list (nat * N) := [(2%nat, 1%N); (3%nat, 3%N); (4%nat, 5%N)].
+Definition ex_lay : lay :=
+  {| l_bt := 0; l_bn := 1; l_fr := [[2%nat]; []; []; []; []]; l_us := [[3%nat]; []; []; []; []]; l_non := [4%nat]; l_al := 7 |}.
+Definition mkb (a b : N) : mblock := {| b_hdr := a; b_mem := b |}.
+Definition mkn (s : N) (f u : list mblock) : mnode := {| n_size := s; n_free := f; n_used := u |}.
+Definition ex_st : state :=
+  {| s_cache := [mkn 32 [mkb 1 2] [mkb 3 4]; mkn 64 [] []; mkn 96 [] []; mkn 128 [] []; mkn 256 [] []];
+     s_non := [mkb 5 6]; s_warned := false; s_next := 7 |}.
+
+(* the hypotheses of the four theorems hold of it *)
+Example ex_rep : rep ex_heap (HPtr 0 0) ex_ids ex_lay ex_st.
+Proof.
+  unfold rep. split; [reflexivity|]. split.
+  { exists (HPtr 4 0). split; [reflexivity|]. cbn. split; [reflexivity|]. split; [reflexivity|]. exists HNull. split; reflexivity. }
+  split; [reflexivity|]. split; [reflexivity|]. split; [reflexivity|]. split; [reflexivity|]. split; [|split].
+  - intros i Hi. destruct i as [|[|[|[|[|i]]]]]; try lia.
+    + exists (HPtr 2 0), (HPtr 3 0). cbn. repeat split; try reflexivity; exists HNull; split; reflexivity.
+    + exists HNull, HNull. cbn. repeat split; reflexivity.
+    + exists HNull, HNull. cbn. repeat split; reflexivity.
+    + exists HNull, HNull. cbn. repeat split; reflexivity.
+    + exists HNull, HNull. cbn. repeat split; reflexivity.
+  - change (lay_blocks ex_lay) with [0; 1; 2; 3; 4]%nat. repeat (constructor; [cbn; intuition lia|]). constructor.
+  - cbn. repeat constructor.
+Qed.
+Example ex_fuel : fuel_ok 10 ex_st.
+Proof.
+  split; [lia|]. split; [cbn; lia|]. intros nd H. cbn in H.
+  destruct H as [<-|[<-|[<-|[<-|[<-|[]]]]]]; cbn; lia.
+Qed.
+
+(* alloc(10): the free block of class 32 is handed out again (buffer ordinal 2), no allocator call *)
+Example ex_alloc_reuse :
+  src_cache_alloc 10 ex_heap [] 7 (HPtr 0 0) 10 =
+  FOk (2, [ [VInt 7; VPtr (HPtr 1 0); VPtr (HPtr 4 0); VInt 0]; ex_arr HNull (HPtr 2 0) HNull;
+            [VPtr (HPtr 3 0); VInt 2]; [VPtr HNull; VInt 4]; [VPtr HNull; VInt 6]; [VInt 99] ], [], 7) /\
+  snd (C18_Model.alloc ex_st 10) = mk_out [] (Some 2%N) false.
+Proof. split; vm_compute; reflexivity. Qed.
+(* alloc(40): class 64 has no free block: header = ordinal 7 (heap block 6), buffer = ordinal 8 *)
+Example ex_alloc_new :
+  src_cache_alloc 10 ex_heap [] 7 (HPtr 0 0) 40 =
+  FOk (8, [ [VInt 7; VPtr (HPtr 1 0); VPtr (HPtr 4 0); VInt 0]; ex_arr (HPtr 2 0) (HPtr 3 0) (HPtr 6 0);
+            [VPtr HNull; VInt 2]; [VPtr HNull; VInt 4]; [VPtr HNull; VInt 6]; [VInt 99]; [VPtr HNull; VInt 8] ],
+       [HAllocRec 7 (HPtr 6 0) 16; HAllocBuf 8 64], 9) /\
+  erase_all ((6%nat, 7%N) :: ex_ids) [HAllocRec 7 (HPtr 6 0) 16; HAllocBuf 8 64] = o_evs (snd (C18_Model.alloc ex_st 40)) /\
+  snd (C18_Model.alloc ex_st 40) = mk_out [EA 7 16; EA 8 64] (Some 8%N) false.
+Proof. repeat split; vm_compute; reflexivity. Qed.
+(* alloc(300): not cached *)
+Example ex_alloc_noncached :
+  src_cache_alloc 10 ex_heap [] 7 (HPtr 0 0) 300 =
+  FOk (8, [ [VInt 7; VPtr (HPtr 1 0); VPtr (HPtr 6 0); VInt 0]; ex_arr (HPtr 2 0) (HPtr 3 0) HNull;
+            [VPtr HNull; VInt 2]; [VPtr HNull; VInt 4]; [VPtr HNull; VInt 6]; [VInt 99]; [VPtr (HPtr 4 0); VInt 8] ],
+       [HAllocRec 7 (HPtr 6 0) 16; HAllocBuf 8 300], 9) /\
+  snd (C18_Model.alloc ex_st 300) = mk_out [EA 7 16; EA 8 300] (Some 8%N) false.
+Proof. split; vm_compute; reflexivity. Qed.
+(* dealloc(buffer 4, 10): the used block of class 32 goes to the head of the free list *)
+Example ex_dealloc_cached :
+  src_cache_dealloc 10 ex_heap [] 7 (HPtr 0 0) (addr_of (PId 4)) 10 =
+  FOk (tt, [ [VInt 7; VPtr (HPtr 1 0); VPtr (HPtr 4 0); VInt 0]; ex_arr (HPtr 3 0) HNull HNull;
+             [VPtr HNull; VInt 2]; [VPtr (HPtr 2 0); VInt 4]; [VPtr HNull; VInt 6]; [VInt 99] ], [], 7) /\
+  snd (dealloc ex_st (PId 4) 10) = mk_out [] None false.
+Proof. split; vm_compute; reflexivity. Qed.
+(* dealloc(a pointer the cache never handed out, 10): the one-time warning, the flag is set *)
+Example ex_dealloc_foreign :
+  src_cache_dealloc 10 ex_heap [] 7 (HPtr 0 0) (addr_of (PFor 0)) 10 =
+  FOk (tt, [ [VInt 7; VPtr (HPtr 1 0); VPtr (HPtr 4 0); VInt 1]; ex_arr (HPtr 2 0) (HPtr 3 0) HNull;
+             [VPtr HNull; VInt 2]; [VPtr HNull; VInt 4]; [VPtr HNull; VInt 6]; [VInt 99] ], [HWarn], 7) /\
+  snd (dealloc ex_st (PFor 0) 10) = mk_out [] None true.
+Proof. split; vm_compute; reflexivity. Qed.
+(* dealloc(buffer 6, 300): the non-cached block goes back to the allocator, buffer first *)
+Example ex_dealloc_noncached :
+  src_cache_dealloc 10 ex_heap [] 7 (HPtr 0 0) (addr_of (PId 6)) 300 =
+  FOk (tt, [ [VInt 7; VPtr (HPtr 1 0); VPtr HNull; VInt 0]; ex_arr (HPtr 2 0) (HPtr 3 0) HNull;
+             [VPtr HNull; VInt 2]; [VPtr HNull; VInt 4]; [VPtr HNull; VInt 6]; [VInt 99] ],
+       [HFreeBuf 6 300; HFreeRec (HPtr 4 0) 16], 7) /\
+  erase_all ex_ids [HFreeBuf 6 300; HFreeRec (HPtr 4 0) 16] = o_evs (snd (dealloc ex_st (PId 6) 300)) /\
+  snd (dealloc ex_st (PId 6) 300) = mk_out [EF 6 300; EF 5 16] None false.
+Proof. repeat split; vm_compute; reflexivity. Qed.
+(* clearCache: the free block of class 32 goes back *)
+Example ex_clearCache :
+  src_cache_clearCache 10 ex_heap [] 7 (HPtr 0 0) =
+  FOk (tt, [ [VInt 7; VPtr (HPtr 1 0); VPtr (HPtr 4 0); VInt 0]; ex_arr HNull (HPtr 3 0) HNull;
+             [VPtr HNull; VInt 2]; [VPtr HNull; VInt 4]; [VPtr HNull; VInt 6]; [VInt 99] ],
+       [HFreeBuf 2 32; HFreeRec (HPtr 2 0) 16], 7) /\
+  erase_all ex_ids [HFreeBuf 2 32; HFreeRec (HPtr 2 0) 16] = o_evs (snd (clear_cache ex_st)) /\
+  snd (clear_cache ex_st) = mk_out [EF 2 32; EF 1 16] None false.
+Proof. repeat split; vm_compute; reflexivity. Qed.
+(* clearAllIncludingCurrentlyUsedMemory: free, used, then the non-cached block with size 0 *)
+Example ex_clearAll :
+  src_cache_clearAllIncludingCurrentlyUsedMemory 10 ex_heap [] 7 (HPtr 0 0) =
+  FOk (tt, [ [VInt 7; VPtr (HPtr 1 0); VPtr HNull; VInt 0]; ex_arr HNull HNull HNull;
+             [VPtr HNull; VInt 2]; [VPtr HNull; VInt 4]; [VPtr HNull; VInt 6]; [VInt 99] ],
+       [HFreeBuf 2 32; HFreeRec (HPtr 2 0) 16; HFreeBuf 4 32; HFreeRec (HPtr 3 0) 16; HFreeBuf 6 0; HFreeRec (HPtr 4 0) 16], 7) /\
+  erase_all ex_ids [HFreeBuf 2 32; HFreeRec (HPtr 2 0) 16; HFreeBuf 4 32; HFreeRec (HPtr 3 0) 16; HFreeBuf 6 0; HFreeRec (HPtr 4 0) 16] =
+  o_evs (snd (clear_all ex_st)) /\
+  snd (clear_all ex_st) = mk_out [EF 2 32; EF 1 16; EF 4 32; EF 3 16; EF 6 0; EF 5 16] None false.
+Proof. repeat split; vm_compute; reflexivity. Qed.
+
+(* the theorems apply to it (their hypotheses are satisfiable) *)
+Example ex_alloc_thm := src_cache_alloc_spec 10 ex_heap [] (HPtr 0 0) ex_ids ex_lay ex_st 10 ex_rep ex_fuel.
+Example ex_dealloc_thm := src_cache_dealloc_spec 10 ex_heap [] (HPtr 0 0) ex_ids ex_lay ex_st (PId 4) 10 ex_rep ex_fuel.
+Example ex_clearCache_thm := src_cache_clearCache_spec 10 ex_heap [] (HPtr 0 0) ex_ids ex_lay ex_st ex_rep ex_fuel.
+Example ex_clearAll_thm := src_cache_clearAll_spec 10 ex_heap [] (HPtr 0 0) ex_ids ex_lay ex_st ex_rep ex_fuel.
